@@ -224,6 +224,75 @@ pub fn with(v: &Value, k: &str, x: Value) -> Value {
     m.insert(k.to_string(), x);
     Value::Object(m)
 }
+/// Source-literal dictionary (written by bin/check from the sources under test): large integer
+/// constants (seed arithmetic) and small ones (size thresholds). Built-in fallbacks are always in.
+pub fn dict() -> &'static (Vec<u64>, Vec<u64>) {
+    static D: std::sync::OnceLock<(Vec<u64>, Vec<u64>)> = std::sync::OnceLock::new();
+    D.get_or_init(|| {
+        let mut big: Vec<u64> = vec![0x9E37_79B9_7F4A_7C15, 1u64 << 32, 1u64 << 63, u64::MAX];
+        let mut small: Vec<u64> = vec![16, 32, 64, 128, 256, 1024, 4096];
+        if let Ok(p) = std::env::var("VERIF_DICT") {
+            if let Ok(txt) = std::fs::read_to_string(p) {
+                for l in txt.lines() {
+                    let mut it = l.split_whitespace();
+                    match (it.next(), it.next()) {
+                        (Some("big"), Some(v)) => {
+                            if let Ok(x) = u64::from_str_radix(v.trim_start_matches("0x"), 16) {
+                                big.push(x);
+                            }
+                        }
+                        (Some("small"), Some(v)) => {
+                            if let Ok(x) = v.parse::<u64>() {
+                                small.push(x);
+                            }
+                        }
+                        _ => {}
+                    }
+                }
+            }
+        }
+        big.sort_unstable();
+        big.dedup();
+        small.sort_unstable();
+        small.dedup();
+        (big, small)
+    })
+}
+
+/// a seed next to a large constant of the dictionary: c, c +- k (k <= spread), c ^ k, !c
+pub fn dict_seed(g: &mut Gen, spread: u64) -> u64 {
+    let c = *g.pick(&dict().0);
+    let k = g.range(0, spread);
+    match g.range(0, 5) {
+        0 | 1 => c.wrapping_sub(k),
+        2 => c.wrapping_add(k),
+        3 => c ^ k,
+        4 => (!c).wrapping_add(k),
+        _ => c.wrapping_neg().wrapping_sub(k),
+    }
+}
+
+/// a size at a threshold of the dictionary (t - 1, t, t + 1) within [lo, hi]; None if there is none
+pub fn dict_size(g: &mut Gen, lo: usize, hi: usize) -> Option<usize> {
+    let c: Vec<u64> = dict().1.iter().copied().filter(|v| *v + 1 >= lo as u64 && *v <= hi as u64 + 1).collect();
+    if c.is_empty() {
+        return None;
+    }
+    let t = *g.pick(&c) as i64 + g.range(0, 2) as i64 - 1;
+    Some((t.max(lo as i64) as usize).min(hi))
+}
+
+/// a size: usually uniform in [lo, hi], 1 time in 5 at a threshold of the source-literal dictionary
+/// (t - 1, t, t + 1) within [lo, hi_dict]
+pub fn size(g: &mut Gen, lo: usize, hi: usize, hi_dict: usize) -> usize {
+    if g.bool(1, 5) {
+        if let Some(s) = dict_size(g, lo, hi_dict) {
+            return s;
+        }
+    }
+    g.usize(lo, hi)
+}
+
 /// standard shrink candidates for an integer parameter: lo, halfway, -1
 pub fn shrink_int(v: &Value, k: &str, lo: u64, out: &mut Vec<Value>) {
     if v.get(k).is_none() {
